@@ -9,3 +9,13 @@ mod utils;
 pub mod instructions;
 
 pub type Result<T> = core::result::Result<T, errors::UnifiedError>;
+
+#[cfg(feature = "verif")]
+#[doc(hidden)]
+pub mod verif_export {
+    pub use super::constants::*;
+    pub use super::errors::*;
+    pub use super::ported::*;
+    pub use super::state::*;
+    pub use super::utils::*;
+}
